@@ -38,8 +38,8 @@ class Engine:
 
     def configs(self, tier, prop):
         if tier == "quick":
-            return [("control", 600), ("single_faults", 260), ("fault_pairs", 140)]
-        return [("control", 30_000), ("single_faults", 12_000), ("fault_pairs", 8_000)]
+            return [("control", 600), ("single_faults", 260), ("fault_pairs", 140), ("casadi_faults", 24)]
+        return [("control", 30_000), ("single_faults", 12_000), ("fault_pairs", 8_000), ("casadi_faults", 1_500)]
 
     def chunk_size(self, config, tier):
         return 20
@@ -65,6 +65,8 @@ class Engine:
     # -- plans -----------------------------------------------------------------------------------
     def gen_plan(self, rng, config, tier, prop):
         target = rng.choice([None, None, "sympy", "sympy", "casadi"]) if config == "control" else rng.choice([None, "sympy", "sympy"])
+        if config == "casadi_faults":
+            target = "casadi"
         n_paths = rng.choice([1, 1, 2, 3])
         good = rng.random() < 0.6  # most invocations should get past the argument checks
         pool = ["lib", "lib/A.mo", "lib/B.mo", "lib/sub", "brk/Ok.mo"] if good else PATH_CHOICES
@@ -80,6 +82,10 @@ class Engine:
             models = [rng.choice(["A", "B", "D"])]
         if config != "control" and not models:
             models = ["A"]
+        if config == "casadi_faults":
+            # a CasADi compile costs ~0.2 s and every fault re-runs the invocation: short requests
+            models = [rng.choice(["A", "B", "D", "Bad", "Nope"]) for _ in range(rng.choice([1, 2, 2]))]
+            paths = [rng.choice(["lib", "lib", "lib/sub"])] + ([rng.choice(["lib/sub", "lib/A.mo"])] if rng.random() < 0.3 else [])
         opts = []
         if target and rng.random() < 0.4:
             for _ in range(rng.choice([1, 2])):
@@ -170,8 +176,31 @@ class Engine:
             os.chdir(old)
         return st, fs
 
+    def invoke_casadi(self, plan, sb, faults):
+        """As invoke(), with the outcome of every casadi_api.transfer_model call observed (the real function runs)."""
+        import pymoca.backends.casadi.api as api
+
+        real = api.transfer_model
+        calls = []
+
+        def transfer_model(model_folder, model_name, *a, **k):
+            try:
+                r = real(model_folder, model_name, *a, **k)
+                calls.append((model_name, False))
+                return r
+            except BaseException:
+                calls.append((model_name, True))
+                raise
+
+        api.transfer_model = transfer_model
+        try:
+            st, fs = self.invoke(plan, sb, faults)
+        finally:
+            api.transfer_model = real
+        return st, fs, calls
+
     # -- reference model ------------------------------------------------------------------------------
-    def reference(self, plan, sb, fired):
+    def reference(self, plan, sb, fired, observed=None):
         """Staged exactly as the statement's categories.  Returns dict(expected, lo, hi, why)."""
         import pymoca.ast as A
         import pymoca.parser as P
@@ -201,7 +230,7 @@ class Engine:
                             files.append(os.path.join(root, f))
         read_faulted = {}
         for f in fired:
-            if f["cat"] == "source":
+            if f["cat"] == "source" and plan["target"] != "casadi":  # the casadi target does not read files itself
                 read_faulted[f["rel"]] = read_faulted.get(f["rel"], 0) + 1
         trees = []
         file_errors = 0
@@ -251,6 +280,10 @@ class Engine:
                         cands = [f for f in files if os.path.splitext(os.path.basename(f))[0] == m]
                         if len(cands) != 1:
                             failed = True
+                        elif fired:
+                            # a source read failed somewhere inside the CasADi API: whether that makes this model's
+                            # generation fail is the API's business; the tool has to count exactly the calls that raised
+                            failed = bool(observed) and observed.pop(0)[1]
                         else:
                             opts = {}
                             for o in plan["opts"]:
@@ -290,8 +323,8 @@ class Engine:
                     out.append((i, "output", kind, path, OUT_FAULTS[kind]))
         return out
 
-    def judge(self, plan, sb, st, fired, shape_tail):
-        ref = self.reference(plan, sb, fired)
+    def judge(self, plan, sb, st, fired, shape_tail, observed=None):
+        ref = self.reference(plan, sb, fired, list(observed) if observed else None)
         if "exit" in ref:
             if st != ("exit", ref["exit"]):
                 return ("wrong_exit_status", "compiler:main", [plan["target"] or "none", "argparse"] + shape_tail,
@@ -341,7 +374,7 @@ class Engine:
         fault_sets = []
         if viol is None and plan["faults"] is not None:
             fault_sets = [plan["faults"]]
-        elif viol is None and config == "single_faults":
+        elif viol is None and config in ("single_faults", "casadi_faults"):
             for (i, cat, kind, rel, errs) in sites:
                 for e in errs:
                     fault_sets.append([{"site": i, "err": e, "cat": cat, "kind": kind, "rel": rel}])
@@ -353,7 +386,11 @@ class Engine:
                                    for s in sorted((a, b))])
         for faults in fault_sets:
             sb = self.make_sandbox()
-            st, fs2 = self.invoke(plan, sb, faults)
+            observed = None
+            if plan["target"] == "casadi":
+                st, fs2, observed = self.invoke_casadi(plan, sb, faults)
+            else:
+                st, fs2 = self.invoke(plan, sb, faults)
             fired_idx = {f[1] for f in fs2.fired}
             fired = [f for f in faults if f["site"] in fired_idx]
             for f in fired:
@@ -364,7 +401,8 @@ class Engine:
             distinct.add(canon.digest((inv_key, tuple((f["cat"], f["kind"], f["err"], f["rel"]) for f in fired))))
             # a second fault may sit on a site that is never reached once the first fired: judge by what fired
             fk = fired[0] if fired else None
-            viol = self.judge(plan, sb, st, fired, [("%s_%s_%s" % (fk["cat"], fk["kind"], fk["err"])) if fk else "no_fault"])
+            viol = self.judge(plan, sb, st, fired, [("%s_%s_%s" % (fk["cat"], fk["kind"], fk["err"])) if fk else "no_fault"],
+                              observed)
             if viol:
                 plan = dict(plan, faults=faults)
                 break
